@@ -212,11 +212,98 @@ def r10h(F):
 		out.append(Result('10.h', p is None, ('ok:' if p is None else 'order:') + 'none-push-followed@%d' % nb.index(b), 'an event pushed without completion action is always followed by the event that carries it', 1, where=F.where(fn, fu.line_of(b))))
 	return out
 
+def r10i(F):
+	"""an event's completion action runs only once the user's handler returned Ok for that event: an event kept for replay keeps its action"""
+	out = []
+	F.calls
+	users = sorted({r[0] for r in F.callers_of.get(F.fn(CM + 'handle_post_event_actions'), [])})
+	n = 0
+	for cn in users:
+		fu = F.func(cn)
+		pushes = []
+		for b, ci in fu.calls():
+			f = norm(ci.get('f') or ci.get('t') or '')
+			a = ci['args'][0] if ci['args'] else None
+			if f.endswith('Vec::push') and a and a[0] in ('c', 'm') and 'Vec<lightning::ln::channelmanager::EventCompletionAction>' in (fu.locals[a[1][0]].get('ty') or ''):
+				pushes.append(b)
+		if not pushes:
+			continue
+		# the switch on the handler's Result<(), ReplayEvent>
+		def is_handler_result(pl):
+			return 'ReplayEvent' in (fu.locals[pl[0]].get('ty') or '') and 'Result<' in (fu.locals[pl[0]].get('ty') or '')
+		sw = variant_switch_edges(fu, is_handler_result, ['Ok', 'Err'])
+		short = cn.split('::')[-1] if '{closure' not in cn else cn.split('::')[-2]
+		if not sw:
+			out.append(Result('10.i', False, 'anchor:handler-result@' + short, '%s: no switch on the event handler result found' % short, where=F.where(cn)))
+			continue
+		for b in pushes:
+			n += 1
+			ok = False
+			for sb, m, other in sw:
+				okb = m.get('Ok')
+				errb = m.get('Err', other)
+				if okb is None:
+					continue
+				# the push is reachable from the Ok arm and from nowhere else: not from entry once the Ok edge is cut
+				if b in fu.reach([okb], removed_blocks={sb}) and fu.path([0], [b], removed_edges={(sb, okb)}) is None:
+					ok = True
+			out.append(Result('10.i', ok, ('ok:' if ok else 'early:') + 'completion-action-after-handler-ok@' + short, '%s: the EventCompletionAction of an event is queued for execution only on the Ok arm of the handler result%s' % (short, '' if ok else ' - it is queued whatever the handler returned: an event the handler asked to replay (Err(ReplayEvent)) stays queued but its action (e.g. the monitor update marking the payment resolved) already ran, so after a restart the event is never regenerated'), 1, where=F.where(cn, fu.line_of(b))))
+	if n < 2:
+		out.append(Result('10.i', False, 'floor:event-loops', 'only %d event-processing loop(s) with completion actions found (expected the sync and the async expansion)' % n, n))
+	return out
+
+def r10j(F):
+	"""every monitor update recording a new holder commitment carries the preimages of the outbound HTLCs that commitment removes: whichever
+	ChannelMonitorUpdateStep variant is used (single or batched / splice), its claimed_htlcs field is filled from the same list"""
+	out = []
+	adt = 'lightning::chain::channelmonitor::ChannelMonitorUpdateStep'
+	a = F.adt(adt)
+	want = sorted({r[0] for r in F.adts[a] if r[1] == 'claimed_htlcs'})
+	vs = enum_variants(F, adt)
+	fn = 'lightning::ln::channel::FundedChannel::commitment_signed_update_monitor'
+	fu = F.func(fn)
+	ex = Expr(fu)
+	if len(want) < 2:
+		return [Result('10.j', False, 'anchor:claimed_htlcs-variants', 'expected >= 2 ChannelMonitorUpdateStep variants with a claimed_htlcs field, found %s' % want)]
+	def is_step(pl):
+		ty = fu.locals[pl[0]].get('ty') or ''
+		return 'ChannelMonitorUpdateStep' in ty
+	sws = [x for x in variant_switch_edges(fu, is_step, vs) if set(want) & set(x[1])]
+	if len(sws) != 1:
+		return [Result('10.j', False, 'anchor:step-switch', 'commitment_signed_update_monitor: expected one match on the update step, found %d' % len(sws), where=F.where(fn))]
+	sb, m, other = sws[0]
+	regions = {v: fu.reach([t], removed_blocks={sb}) for v, t in m.items()}
+	regions['_'] = fu.reach([other], removed_blocks={sb})
+	for v in want:
+		if v not in m:
+			out.append(Result('10.j', False, 'missing-arm:' + v, 'commitment_signed_update_monitor has no arm for ChannelMonitorUpdateStep::%s although it carries claimed_htlcs' % v, where=F.where(fn)))
+			continue
+		excl = set(regions[v])
+		for v2, r in regions.items():
+			if v2 != v:
+				excl -= r
+		stores = []
+		for bi in sorted(excl):
+			for st in fu.blocks[bi]['s']:
+				pl = st[1]
+				if len(pl) == 2 and pl[1] == '*' and 'SentHTLCId' in (fu.locals[pl[0]].get('ty') or '') and (fu.locals[pl[0]].get('ty') or '').startswith('&mut'):
+					e = ex.of_rvalue(st[2])
+					lv = expr_leaves(e)
+					fresh = any(c.endswith('Vec::new') or c.endswith('Default::default') for c in lv['calls']) and not lv['locals']
+					stores.append((bi, fresh, leaf_key(e)[:60]))
+		good = [x for x in stores if not x[1]]
+		ok = bool(good)
+		out.append(Result('10.j', ok, ('ok:' if ok else 'forgotten:') + 'claimed-htlcs-filled@' + v, 'commitment_signed_update_monitor: the %s arm stores the list of claimed outbound HTLCs into the update (%s)%s' % (v, [x[2] for x in stores], '' if ok else ' - without it the monitor never learns the preimage: after a restart with a stale manager the payment is reported failed although it was claimed'), len(stores) + 1, where=F.where(fn, fu.line_of(m[v]))))
+	# all arms are filled from the same source
+	return out
+
 RULES = [
 	('10.a', 'resume only when the manager is not behind the monitor (else force-close + regenerated update); monitor behind manager => DangerousValue', r10a),
 	('10.b', 'the Watch is driven only after background events ran; the flag is stored only by process_background_events', r10b),
 	('10.c', 'in-flight replay: exactly the updates newer than the monitor are replayed; all-complete means all', r10c),
 	('10.g', 'payments rebuilt from monitors: entries without recorded HTLCs become Retryable, others get the path added', r10g),
 	('10.h', 'the payment-complete monitor update is released only by the last event of a failed HTLC', r10h),
+	('10.i', 'event completion actions are queued only after the handler returned Ok (sync and async event loops)', r10i),
+	('10.j', 'every holder-commitment monitor update variant carries the claimed outbound HTLCs (sibling arms agree)', r10j),
 	('10.d', 'startup-only helpers are reachable only from the restart routine; reconstruction calls exist', r10d),
 ]
